@@ -29,7 +29,40 @@ func rc(s string) string {
 			c = 'g'
 		case 'g':
 			c = 'c'
-		default:
+		// IUPAC degenerate bases (NNK libraries, N barcodes)
+		case 'R':
+			c = 'Y'
+		case 'Y':
+			c = 'R'
+		case 'K':
+			c = 'M'
+		case 'M':
+			c = 'K'
+		case 'B':
+			c = 'V'
+		case 'V':
+			c = 'B'
+		case 'D':
+			c = 'H'
+		case 'H':
+			c = 'D'
+		case 'r':
+			c = 'y'
+		case 'y':
+			c = 'r'
+		case 'k':
+			c = 'm'
+		case 'm':
+			c = 'k'
+		case 'b':
+			c = 'v'
+		case 'v':
+			c = 'b'
+		case 'd':
+			c = 'h'
+		case 'h':
+			c = 'd'
+		default: // S, W, N and anything else are their own complement
 			c = s[len(s)-1-i]
 		}
 		b[i] = c
@@ -63,6 +96,19 @@ func canonCircular(s string) string {
 		return b
 	}
 	return a
+}
+
+// randDNAIUPAC draws DNA that now and then contains degenerate bases.
+func randDNAIUPAC(t *core.Tape, n int) string {
+	b := make([]byte, n)
+	for i := range b {
+		if t.Draw(4) == 3 {
+			b[i] = "NNNNKSRYWMBDHV"[t.Draw(14)]
+		} else {
+			b[i] = "ACGT"[t.Draw(4)]
+		}
+	}
+	return string(b)
 }
 
 func randDNA(t *core.Tape, n int) string {
